@@ -155,7 +155,7 @@ func (in *Interp) eval(fr *Frame, v ssa.Value) Value {
 	case *ssa.MakeInterface:
 		return Iface{t: i.X.Type(), v: in.get(fr, i.X)}
 	case *ssa.MakeMap:
-		return &Map{idx: map[string]int{}}
+		return &Map{idx: map[string]int{}, epoch: in.epoch}
 	case *ssa.MakeChan:
 		return Ptr{c: newCell(Host{"chan"}, nil, 0)} // opaque: only its type matters (reflect kinds)
 	case *ssa.MakeSlice:
